@@ -81,7 +81,9 @@ func runC01(c *Ctx) {
 	for i := 0; i < n; i++ {
 		seed := c.Seed*86028121 + uint64(i)
 		// the deliberately invalid directive placement is not a supported program
-		p := gen.GenerateSeed(seed, gen.Options{RateInvalidDir: -1, Adversarial: i%7 == 3})
+		// ... and neither is a variable named like an imported package (graphql, sup, json): the property's
+		// quantifier excludes names that collide with imported package names
+		p := gen.GenerateSeed(seed, gen.Options{RateInvalidDir: -1, RateVarShadow: -1, Adversarial: i%7 == 3})
 		pr := progFromGen(p)
 		cases = append(cases, c01Case{Seed: seed, Schema: pr.Schema, Ops: pr.Ops, Cfg: pr.Cfg, Feat: p.FeatureNames()})
 		if len(cases) >= batchSize {
